@@ -250,7 +250,7 @@ def main(argv):
                 machinery.append(f"{ob.name}: {r.get('detail')}")
             else:
                 inconclusive.append(f"{ob.name}: {r.get('detail', st)}")
-            if len(samples) < 6:
+            if sum(1 for x in samples if x["engine"] == "B") < 4:
                 samples.append({"obligation": ob.name, "engine": "B", "args": ob.args, "status": st,
                                 "detail": str(r.get("detail"))[:400], "encoded_from_source": r.get("encoded"),
                                 "notes": r.get("notes"), "queries": r.get("queries"), "solver_s": r.get("solver_s")})
@@ -295,7 +295,7 @@ def main(argv):
             machinery.append(f"{ob.name}: {r.get('raw')}")
         else:
             inconclusive.append(f"{ob.name}: {st} after {r.get('wall_s')}s/{r.get('paths')} paths")
-        if len(samples) < 6:
+        if sum(1 for x in samples if x["engine"] == "A") < 4:
             samples.append({"obligation": ob.name, "engine": "A", "harness": ob.harness,
                             "symbolic": {k: list(v) for k, v in ob.sym.items()}, "fixed": ob.fixed,
                             "status": st, "paths": r.get("paths"), "cpu_s": r.get("wall_s")})
